@@ -32,6 +32,7 @@ From Coq Require Import ZArith List Bool.
 From FT Require Import Base.Dict Model.Edit Model.EditExec Model.Toggle Model.ToggleExec
   Proofs.EditInv Proofs.EditSeg Proofs.EditFresh Proofs.ToggleProofs Proofs.ToggleExample.
 From FT Require Gen.Toggle_gen Proofs.ToggleTie Proofs.ToggleTieInv Proofs.ToggleRefuted.
+From FT Require Proofs.AnnotatorsTie.
 Import ListNotations.
 Open Scope Z_scope.
 
@@ -245,6 +246,15 @@ Proof.
   exists s0, s1, s2, s3, u, v, ctrk, clin. intuition.
 Qed.
 
+(* ---- the annotators that feature switching activates are, for all arguments, the code translated on every
+        run from _regionprops_annotator.py and _edge_annotator.py (Gen/Annotators_gen.v; Proofs/AnnotatorsTie.v):
+        in particular WHICH keys an update writes (the enabled ones only) is read off the source. ---- *)
+Theorem C10_regionprops_update_is_generated : ltac:(let t := type of @FT.Proofs.AnnotatorsTie.gen_RegionpropsAnnotator_update_eq in exact t).
+Proof. exact @FT.Proofs.AnnotatorsTie.gen_RegionpropsAnnotator_update_eq. Qed.
+
+Theorem C10_edge_update_is_generated : ltac:(let t := type of @FT.Proofs.AnnotatorsTie.gen_EdgeAnnotator_update_WF in exact t).
+Proof. exact @FT.Proofs.AnnotatorsTie.gen_EdgeAnnotator_update_WF. Qed.
+
 Example C10_ex_hyps :
   cfg_keys c10_st /\ W_reg c10_st /\ seg c10_st = Some c10_sg /\ W_seg c10_st /\ comps_disjoint [[2]; [1]].
 Proof. exact (conj c10_cfg_keys (conj c10_W_reg (conj eq_refl (conj c10_W_seg c10_disjoint)))). Qed.
@@ -326,3 +336,5 @@ Print Assumptions C10_disable_is_generated.
 Print Assumptions C10_protected_check_is_generated.
 Print Assumptions C10_generated_along_runs.
 Print Assumptions C10_ids_recomputed_then_undo_refuted.
+Print Assumptions C10_regionprops_update_is_generated.
+Print Assumptions C10_edge_update_is_generated.
